@@ -903,8 +903,11 @@ class XsdElement(XsdComponent, ParticleMixin,
             xsd_element = _copy(xsd_element)
             xsd_element._set_type(xsd_type)
 
-        # Collect field values for identities that refer to this XSD element.
-        for identity in self.selected_by:
+        # Collect field values for identities that refer to this XSD element. Iterate
+        # over a snapshot: another thread that validates with the same schema can bind
+        # this element to a further identity (xsi:type widening) while the loop runs,
+        # and a set that changes size makes its iterator raise RuntimeError.
+        for identity in tuple(self.selected_by):
             try:
                 counter = context.identities[identity]
             except KeyError:
